@@ -89,6 +89,16 @@ check("C03", "model_checking",
       "Trusted: value projection, whitespace-insensitive comparison of the process text, TLC. Tails are sampled from a fixed family plus truncations.",
       "TLC trace validation of paired Run(input)/Run(Matched) experiments + TLA+ Lang oracle for the consumed program", "DESIGN.md section 4 C03")
 
+check("C19", "model_checking",
+      "spec/ErrPos.tla defines line and column of a byte offset over rune sequences, the message table and the header per language; TLC "
+      "enumerates ALL inputs up to length 4/5 over an alphabet of brackets, quotes, operators, line feeds, blanks and multi-byte runes, the "
+      "harness parses each under the three language settings, and TLC (Trace_ErrPos) validates every error text the real parser returns: "
+      "offset within the input and on a rune boundary, reported line/column equal to those of the offset (every 'L:C (O):' prefix of the "
+      "error list), quoted line is that line (or its truncation), caret under that column, header and message lines only in the configured "
+      "language and from the message table.  Truncations of the repository's multi-line inputs, long lines and multi-byte prefixes are added.",
+      "Trusted: the harness's parser of error texts and its rendering of the 60-byte truncation; TLC. The cross-VM language part is checked with C11's schedule replay.",
+      "TLA+ position/message spec + exhaustive small-alphabet input enumeration (TLC) + TLC trace validation of real error texts", "DESIGN.md section 4 C19")
+
 NOT_YET = "check under construction in this build phase (planned in DESIGN.md section 4); not yet claimed"
 
 m = {
